@@ -818,11 +818,11 @@ fn main() {
             };
             let counter_seeds = || vec![Seed::Empty, Seed::CounterAt(u32::MAX - 2)];
             // small id spaces: every id queried after every step
-            r.world(&world(Flavour::BaseSeq, "nft-base-sequential", counter_seeds()), &Bounds::new(6, tier.pick(3, 25)));
-            r.world(&world(Flavour::BaseExplicit, "nft-base-explicit-ids", vec![Seed::Empty]), &Bounds::new(6, tier.pick(3, 15)));
-            r.world(&world(Flavour::EnumSeq, "nft-enumerable-sequential", counter_seeds()), &Bounds::new(6, tier.pick(5, 50)));
-            r.world(&world(Flavour::EnumExplicit, "nft-enumerable-explicit-ids", vec![Seed::Empty]), &Bounds::new(5, tier.pick(7, 55)));
-            r.world(&world(Flavour::Consecutive, "nft-consecutive", vec![Seed::Empty]), &Bounds::new(4, tier.pick(13, 75)));
+            r.world(&world(Flavour::BaseSeq, "nft-base-sequential", counter_seeds()), &Bounds::new(6, tier.pick(2, 25)));
+            r.world(&world(Flavour::BaseExplicit, "nft-base-explicit-ids", vec![Seed::Empty]), &Bounds::new(6, tier.pick(2, 15)));
+            r.world(&world(Flavour::EnumSeq, "nft-enumerable-sequential", counter_seeds()), &Bounds::new(6, tier.pick(4, 50)));
+            r.world(&world(Flavour::EnumExplicit, "nft-enumerable-explicit-ids", vec![Seed::Empty]), &Bounds::new(5, tier.pick(6, 55)));
+            r.world(&world(Flavour::Consecutive, "nft-consecutive", vec![Seed::Empty]), &Bounds::new(4, tier.pick(14, 75)));
             // seeds whose initial batch straddles an item (32) / bucket (3200) edge or is maximal
             let seeded = |name: &'static str, sizes: Vec<u32>, mint_to: Vec<usize>| {
                 let mut w = world(Flavour::Consecutive, name, sizes.into_iter().map(Seed::Batch).collect());
@@ -830,10 +830,10 @@ fn main() {
                 w.rich = false;
                 w
             };
-            r.world(&seeded("nft-consecutive-item-edge", vec![32001], tier.pick(vec![1], vec![0, 1])), &Bounds::new(3, tier.pick(12, 30)));
+            r.world(&seeded("nft-consecutive-item-edge", vec![31, 32, 33], tier.pick(vec![1], vec![0, 1])), &Bounds::new(3, tier.pick(10, 30)));
             if th {
                 r.world(&seeded("nft-consecutive-bucket-edge", vec![3199, 3200, 3201], vec![0, 1]), &Bounds::new(3, 40));
-                r.world(&seeded("nft-consecutive-max-batch", vec![32001], vec![0, 1]), &Bounds::new(2, 10));
+                r.world(&seeded("nft-consecutive-max-batch", vec![32000], vec![0, 1]), &Bounds::new(2, 10));
             }
             if th {
                 // the most expensive world last
